@@ -254,7 +254,7 @@ def r2_source_matrix(cx):
             if it["name"] == "cut":
                 env[4] = True
             succ = restricted_succ(b, {bc: crc}, env)
-            err = b.error_blocks()
+            err = b.error_blocks() | b.err_return_blocks()
             verif = {i for i, t in b.calls(r"block::assert_slice_crc$")}
             deleg = {i for i, t in b.calls(r"Source>::get_slice$", r"Source>::cut$") if "param:%d" % bc in enum_arg(b, t["args"][2])}
             r_all = _reach(succ, 0, avoid=err)
